@@ -7,11 +7,14 @@ import numpy as np
 
 import arch_util as au
 import py2v_arch
+import py2v_thr
 
 CONFIG = {
     "cone": ["Base/ListUtil.v", "Base/QUtil.v", "Base/FirstArgmax.v", "Model/Store.v", "Proofs/StoreProofs.v", "Model/Archive.v", "Model/GridFloat.v", "Model/ThrFloat.v",
-             "Proofs/ArchiveProofs.v", "Proofs/C01Proofs.v", "Proofs/C02Proofs.v", "Generated/TransGen.v", "Refine/TransRefine.v", "Properties/C05.v"],
-    "extra_property_files": ["Refine/TransRefine.v"],
+             "Proofs/ArchiveProofs.v", "Proofs/C01Proofs.v", "Proofs/C02Proofs.v", "Generated/TransGen.v", "Refine/TransRefine.v", "Properties/C05.v",
+             "Model/GridRound.v", "Proofs/GridRoundProofs.v", "Model/ThrRound.v", "Proofs/ThrRoundProofs.v", "Generated/ThrGenR.v", "Refine/ThrRoundRefine.v",
+             "Properties/C05Float.v"],
+    "extra_property_files": ["Refine/TransRefine.v", "Refine/ThrRoundRefine.v", "Properties/C05Float.v"],
     "trusted": ["harness/py2v_arch.py: fail-closed ast translator of single_entry_with_threshold and of the ratio/new_threshold expressions of "
                 "_compute_thresholds into Generated/TransGen.v on every run; Refine/TransRefine.v proves them equal to the model for all arguments "
                 "(the numpy-vectorised batch transform itself is tied by the correspondence run only)",
@@ -152,6 +155,16 @@ def bitexact_stream(rep, rng, n):
     insertion through add_single or a batch of one, the stored threshold and the reported value must equal Model/ThrFloat.v bit for bit"""
     from ribs.archives import GridArchive
     steps, meta = [], []
+    # the witness of Properties/C05Float.v (C05_float_never_decrease_refuted), replayed on the real archive: binary32, a = float32(1/3),
+    # objective one ulp above the threshold -> the new threshold is BELOW the old one; model and implementation must agree on the bits
+    wt, wa, wf = 14286183 * 2.0 ** -24, 11184811 * 2.0 ** -25, 14286184 * 2.0 ** -24
+    warch = GridArchive(solution_dim=1, dims=[2], ranges=[(0, 1)], learning_rate=np.float32(wa), threshold_min=np.float32(wt), dtype=np.float32)
+    winfo = warch.add_single(np.zeros(1, dtype=np.float32), np.float32(wf), np.array([0.25], dtype=np.float32))
+    wnew = float(warch.data("threshold")[0])
+    steps.append((0, 1, wt, wa, wf))
+    meta.append({"dtype": "f", "lr": wa, "threshold_min": wt, "step": 0, "path": "add_single", "t": wt, "objective": wf, "impl_threshold": wnew,
+                 "impl_value": float(winfo["value"]), "status": int(winfo["status"])})
+    rep.count("witness_threshold_decreases_by_rounding_on_the_implementation", 1 if wnew < wt else 0)
     for _ in range(n):
         dt = rng.choice(["f", "d"])
         dtype = au.DT[dt]
@@ -202,6 +215,7 @@ def bitexact_stream(rep, rng, n):
 
 def check(rep, tier, seed, driver):
     py2v_arch.report(rep)
+    py2v_thr.report(rep)
     rng = random.Random(seed)
     n = 300 if tier == "quick" else 3500
     rep.rule = ("(a) CMA-MAE GridArchive/CVTArchive(kd,brute,chunk), float32/float64, learning rates {0,1/4,1/2,3/4,1,0.1,0.3}, step-wise "
